@@ -124,6 +124,10 @@ func runC14Unsync(c *fw.Ctx, v refmatch.Variant, rep int) c14Obs {
 		defer peer.Close()
 	}
 	snk := &simnet.UnsyncSink{}
+	if rep%3 == 2 {
+		// every third repetition: one send (never the first) fails after a stall, while replies keep arriving
+		snk.FailAt, snk.FailStall, snk.FailErr = 2+rep%7, 400*time.Microsecond, fmt.Errorf("sendto: %w", errInjected)
+	}
 	src := &simnet.UnsyncSource{}
 	W := last - first + 1
 	var lport uint16
@@ -201,7 +205,7 @@ func checkC14() fw.Check {
 	return fw.Check{
 		Prop:  "C14",
 		Level: "exploration",
-		Rule: "built-in race detector (GORACE halt_on_error=0, log_path) over real goroutines on the real clock: (a) every parallel-capable variant (icmp4/6, udp4/6, sackR/S) on an UNSYNCHRONISED pre-seeded wire whose Sink and Source share no lock/atomic/channel, with replies for every TTL circulating continuously so each is read both before its probe is recorded (early/stale/spoofed) and after; (b) K concurrent runs of mixed protocols over the ordinary simulated wire (allocators, echo ids, math/rand); (d) allocator bursts: 16 goroutines released at once draw IP-id blocks and echo ids, all blocks of one burst (< 65536 identifiers) must be disjoint (lost updates of a non-atomic read-modify-write are invisible to the race detector); (c) whole RunTraceroute requests with reverse-DNS fan-out, public-IP fetch and some participants failing at the same time; each workload repeated R times; reports are de-duplicated by the pair of first repository frames; a report without repository frames makes the run inconclusive (harness race). " +
+		Rule: "built-in race detector (GORACE halt_on_error=0, log_path) over real goroutines on the real clock: (a) every parallel-capable variant (icmp4/6, udp4/6, sackR/S) on an UNSYNCHRONISED pre-seeded wire whose Sink and Source share no lock/atomic/channel, with replies for every TTL circulating continuously so each is read both before its probe is recorded (early/stale/spoofed) and after, and in every third repetition one send failing after a stall (the send's error path runs against the receive path); (b) K concurrent runs of mixed protocols over the ordinary simulated wire (allocators, echo ids, math/rand); (d) allocator bursts: 16 goroutines released at once draw IP-id blocks and echo ids, all blocks of one burst (< 65536 identifiers) must be disjoint (lost updates of a non-atomic read-modify-write are invisible to the race detector); (c) whole RunTraceroute requests with reverse-DNS fan-out, public-IP fetch and some participants failing at the same time; each workload repeated R times; reports are de-duplicated by the pair of first repository frames; a report without repository frames makes the run inconclusive (harness race). " +
 			"distinct_nontrivial counts (variant, had-early-reads, had-late-reads) and workload signatures observed; a variant without both early and late reads is inconclusive",
 		Workers:       1,
 		MinNontrivial: 12,
